@@ -197,6 +197,18 @@ Theorem C11_source_vector_member_include_test :
 Proof. exact gen_vector_include. Qed.
 Print Assumptions C11_source_vector_member_include_test.
 
+(* route-list clean-up: positions popped for the own source listed first / destination listed last; twins of the
+   aggregation agree on ORDERED include lists.  Also matched literally by the translator (no definition): the pop of an
+   unusable LOOSE hop, requests_from_json's `sorted(..., key=lambda x: x['index'])`, BaseParams.update_attr's deep copy
+   of list / dict defaults *)
+Theorem C11_source_route_list_cleanup : g_clean_pops = clean_pops.
+Proof. exact gen_clean_pops. Qed.
+Print Assumptions C11_source_route_list_cleanup.
+
+Theorem C11_source_twin_attributes : g_twin_attrs = twin_attrs.
+Proof. exact gen_twin_attrs. Qed.
+Print Assumptions C11_source_twin_attributes.
+
 (* ---------- non-vacuity ---------- *)
 (* square 1-2-4 / 1-3-4 with a chord: two routes, includes select the longer one, a STRICT impossible list blocks *)
 Definition ex_g : graph := [(1, [(2, 5); (3, 1)]); (2, [(4, 5)]); (3, [(4, 1); (2, 1)]); (4, [])].
